@@ -152,6 +152,25 @@ def callback_rules(check, P):
         else:
             check.violation("R2", "on_printrun_error:order", f"_on_printrun_error: stores {len(sets)} / signals {len(acks)}; the error must be stored first, then the event set", [decisions_text(path)])
     check.floor(seen_err >= 1 and seen_ok >= 1, f"C16.R2: message callback paths: error {seen_err}, success {seen_ok}")
+    # R3 classification of constant reply lines (oracle: Marlin / Grbl / Smoothie replies)
+    SAMPLES = [("ok", "ok"), ("OK", "ok"), ("ok T:210.0 /210.0", "ok"), ("error:20", "error"), ("Error:Printer halted", "error"),
+               ("ALARM:1", "error"), ("alarm: hard limit", "error"), ("!! Move out of range", "error"), ("!!", "error"), ("!!stop", "error"),
+               ("X:10.00 Y:2.00", "report"), ("<Idle|MPos:0.000,0.000,0.000>", "report"), ("echo:busy: processing", "report")]
+    for line, want in SAMPLES:
+        outcomes = set()
+        for path in I.explore(lambda I: None, lambda I, _, line=line: W.call_method(I, "pw", "_on_device_message", (Const(line),)), max_dev=None, max_paths=200):
+            n += 1
+            if path.outcome != "return":
+                outcomes.add(f"raises {path.value.cls}")
+                continue
+            stored = any(e.kind == "SET" and e.data.get("field") == "_device_error" for e in path.trace)
+            acked = bool(ext(path, "_ack_event.set"))
+            outcomes.add("error" if (stored and acked) else ("ok" if acked else ("report" if not stored else "error-without-ack")))
+        if outcomes == {want}:
+            check.ok("R3", f"reply {line!r} is classified as {want}")
+        else:
+            check.violation("R3", f"classification:{want}:{line.split()[0][:12]}", f"the reply {line!r} is handled as {sorted(outcomes)}; it is {'an error reply: the error must be stored and the acknowledgement set' if want == 'error' else ('an acknowledgement' if want == 'ok' else 'a plain report: parsed, no acknowledgement')}",
+                            [f"outcomes over the abstract paths of _on_device_message: {sorted(outcomes)}"])
     # R3 prefix tables
     mod = "gscrib.writers.printrun_writer"
     for name, must in (("SUCCESS_PREFIXES", {"ok"}), ("ERROR_PREFIXES", {"error", "alarm", "!!"})):
